@@ -76,6 +76,15 @@ pub fn vf_drain_to_incl<T>(v: &mut Vec<T>, n: usize)
     requires n < old(v)@.len()
     ensures final(v)@ == old(v)@.subrange(n as int + 1, old(v)@.len() as int)
 { unimplemented!() }
+// X.iter().skip(n) / X.iter().take(n) where the callee takes the slice instead of its iterator (assumed std semantics)
+#[verifier::external_body]
+pub fn vf_slice_skip<T>(a: &[T], n: usize) -> (r: &[T])
+    ensures r@ == (if n <= a@.len() { a@.subrange(n as int, a@.len() as int) } else { Seq::empty() })
+{ unimplemented!() }
+#[verifier::external_body]
+pub fn vf_slice_take<T>(a: &[T], n: usize) -> (r: &[T])
+    ensures r@ == (if n <= a@.len() { a@.subrange(0, n as int) } else { a@ })
+{ unimplemented!() }
 // a.into_iter().chain(b).collect::<Vec<_>>()
 #[verifier::external_body]
 pub fn vf_concat<T>(a: Vec<T>, b: Vec<T>) -> (r: Vec<T>) ensures r@ == a@ + b@ { unimplemented!() }
